@@ -127,7 +127,13 @@ def run_for(prop, tier, seed):
         if not os.path.exists(os.path.join(SPEC, cfg)):
             continue
         # per-action coverage (vacuity guard) on the configurations that finish quickly; the big ones run without it
-        r = run_config(module, cfg, coverage=(tier == 'thorough' and 'big' not in cfg and 'fwd' not in cfg and 'g1' not in cfg and cfg not in ('MC_par.cfg', 'MC_partime.cfg', 'MC_redisp.cfg') and 'live' not in cfg), timeout=10800)
+        # (TLC's coverage mode also keeps the distinct values of every variable: with the 8 GB heap the stop() configurations run out of memory)
+        cov = (tier == 'thorough' and 'big' not in cfg and 'fwd' not in cfg and 'g1' not in cfg and 'stop' not in cfg
+               and cfg not in ('MC_par.cfg', 'MC_partime.cfg', 'MC_redisp.cfg') and 'live' not in cfg)
+        r = run_config(module, cfg, coverage=cov, timeout=10800)
+        if cov and not r['ok'] and not r.get('violated') and 'ran out of memory' in r.get('tail', ''):
+            res['messages'].append('NOTE coverage run of %s/%s ran out of memory: repeated without coverage (no per-action counts for it)' % (module, cfg))
+            r = run_config(module, cfg, coverage=False, timeout=10800)
         res['configs'].append({k: v for k, v in r.items() if k != 'tail'})
         res['states'] += r['states']
         res['transitions'] += r['transitions']
